@@ -73,6 +73,30 @@ pub fn encode(ev: Ev, pool_index: usize, aux: u8, expr: &str) -> Vec<u8> {
     v
 }
 
+/// Does the tree use only the operations the statement of `prop` lists? (The per-evaluator value
+/// properties C05, C06, C07, C09 each name their operations; anything else - other functions,
+/// aggregates, degrees - belongs to C10 / C11, which have stages of their own.)
+fn in_scope(prop: &str, a: &Ast) -> bool {
+    use crate::syntax::Func as F;
+    let funcs: &[F] = match prop {
+        "C05" => &[F::Abs, F::Floor, F::Ceil, F::Trunc, F::Round, F::Sqrt, F::Mod, F::Pow],
+        "C06" => &[F::Abs, F::Sgn, F::Mod, F::Pow],
+        "C07" => &[F::Mod],
+        "C09" => &[F::Abs, F::Sgn, F::Floor, F::Ceil, F::Trunc, F::Round, F::Mod, F::Pow],
+        _ => return true,
+    };
+    let here = match a {
+        Ast::Call(f, _, _) => funcs.contains(f),
+        Ast::Fact(_) => matches!(prop, "C06" | "C09"),
+        Ast::Deg(_) | Ast::Rad(_) => false,
+        Ast::Bin(crate::syntax::Op::Pow, _, _) | Ast::Sup(..) => prop != "C07",
+        Ast::Group(Br::Floor, _) | Ast::Group(Br::Ceil, _) => prop != "C07",
+        Ast::Pi(_) | Ast::E => prop == "C05" || prop == "C09",
+        _ => true,
+    };
+    here && a.children().iter().all(|c| in_scope(prop, c))
+}
+
 fn nodes(a: &Ast) -> usize {
     1 + a.children().iter().map(|c| nodes(c)).sum::<usize>()
 }
@@ -84,11 +108,19 @@ pub fn cases(prop: &str, i: &Input) -> Vec<Case> {
     match prop {
         "C01" | "C02" | "C04" | "C10" => one("fuzz"),
         "C03" => one("w4"),
-        "C05" if ev == Ev::F64 => one("fuzz"),
-        "C06" if ev == Ev::I64 => one("fuzz"),
-        "C07" if ev == Ev::Dec => one("fuzz"),
+        "C05" | "C06" | "C07" | "C09" => {
+            let want = match prop {
+                "C05" => Ev::F64,
+                "C06" => Ev::I64,
+                "C07" => Ev::Dec,
+                _ => Ev::Num,
+            };
+            match parse(ev, s) {
+                Ok(p) if ev == want && !p.unspec && in_scope(prop, &p.ast) => one("fuzz"),
+                _ => vec![],
+            }
+        }
         "C08" if ev == Ev::Cpx => one("fuzz"),
-        "C09" if ev == Ev::Num => one("fuzz"),
         "C12" => match parse(ev, s) {
             Ok(p) if !p.unspec && p.ast.has_imul() => {
                 let k = c12::count_imul(&p.ast);
@@ -112,6 +144,12 @@ pub fn cases(prop: &str, i: &Input) -> Vec<Case> {
             if !s.contains('@') {
                 return vec![];
             }
+            // well-formed inputs only: in a malformed one, writing a bracketed literal for `@` changes
+            // what may be juxtaposed (`@@` is rejected, `(2)(2)` is a product)
+            match parse(ev, s) {
+                Ok(p) if !p.unspec => {}
+                _ => return vec![],
+            }
             let mut v = vec![];
             if s == "@" {
                 v.push(Case::new(ev, "alone", s, ph));
@@ -119,7 +157,7 @@ pub fn cases(prop: &str, i: &Input) -> Vec<Case> {
             match c14::value_expr(&ph) {
                 Some(lit) => {
                     let t = s.replace('@', &lit);
-                    if t.chars().count() <= 2000 {
+                    if t.chars().count() <= 2000 && matches!(parse(ev, &t), Ok(p) if !p.unspec) {
                         v.push(Case::pair(ev, "substitution", s, ph, &t, Val::zero(ev)));
                     }
                 }
